@@ -85,8 +85,8 @@ func VerifC13aStep(c, tail int) {
 		releases = 1
 		go func() {
 			verifrt.Sleep(d)
-			c13Others--
 			<-c13Lim
+			c13Others-- // (no scheduling point between the receive and the bookkeeping)
 		}()
 	}
 	if mode == omode.TailClient {
